@@ -671,6 +671,45 @@ m("C14", "timeout-closes-directly", CM,
   "			err := fmt.Errorf(\"%s: timed out waiting %s for Accept message from remote peer\",\n				mc.chid, mc.cfg.AcceptTimeout)\n			_ = mc.mgr.CloseDataTransferChannelWithError(mc.parentCtx, mc.chid, err)",
   "C14.2", "accept timeout closes the channel even after the monitor shut down")
 
+# ---------------- C15
+NET = "network/libp2p_impl.go"
+m("C15", "backoff-ignores-cancel", NET,
+  "		select {\n		case <-ctx.Done():\n			return nil, ctx.Err()\n		case <-time.After(d):\n		}",
+  "		<-time.After(d)",
+  "C15.1", "context cancellation ignored during backoff", "calibration")
+m("C15", "cap-not-checked", NET,
+  "		if nAttempts >= impl.maxStreamOpenAttempts {",
+  "		if nAttempts >= impl.maxStreamOpenAttempts && impl.backoffFactor > 1 {",
+  "C15.1", "attempt cap disabled")
+m("C15", "no-reset-on-write-error", NET,
+  "	if err = dtnet.msgToStream(ctx, s, outgoing); err != nil {\n		if err2 := s.Reset(); err2 != nil {\n			log.Error(err)\n			span.RecordError(err2)\n			span.SetStatus(codes.Error, err2.Error())\n			return err2\n		}\n		span.RecordError(err)",
+  "	if err = dtnet.msgToStream(ctx, s, outgoing); err != nil {\n		span.RecordError(err)",
+  "C15.2", "failed write leaves the stream open")
+m("C15", "write-error-swallowed", NET,
+  "		span.RecordError(err)\n		span.SetStatus(codes.Error, err.Error())\n		return err\n	}\n\n	return s.Close()",
+  "		span.RecordError(err)\n		span.SetStatus(codes.Error, err.Error())\n	}\n\n	return s.Close()",
+  "C15.2", "failed write reported as success")
+m("C15", "restart-existing-to-request-handler", NET,
+  "				if receivedRequest.IsRestartExistingChannelRequest() {\n					dtnet.receiver.ReceiveRestartExistingChannelRequest(ctx, p, receivedRequest)\n				} else {",
+  "				if receivedRequest.IsRestartExistingChannelRequest() && receivedRequest.IsPull() {\n					dtnet.receiver.ReceiveRestartExistingChannelRequest(ctx, p, receivedRequest)\n				} else {",
+  "C15.3", "restart-existing requests for push channels handed to the request handler")
+m("C15", "handler-after-decode-error", NET,
+  "			_ = s.SetReadDeadline(time.Time{})\n			return\n		}\n		_ = s.SetReadDeadline(time.Time{})",
+  "			_ = s.SetReadDeadline(time.Time{})\n			if received == nil {\n				return\n			}\n		}\n		_ = s.SetReadDeadline(time.Time{})",
+  "C15.3", "a message is dispatched although decoding reported an error")
+m("C15", "no-default-protocol", NET,
+  "		default:\n			s.Reset() // nolint: errcheck,gosec\n			go dtnet.receiver.ReceiveError(fmt.Errorf(\"unrecognized protocol on stream: %s\", s.Protocol()))\n			return\n		}\n\n		if err != nil {",
+  "		}\n\n		if err != nil {",
+  "C15.4", "unrecognised protocol crashes the stream handler (defect D6)")
+m("C15", "double-encode", NET,
+  "	if err := msg.ToNet(s); err != nil {\n		log.Debugf(\"error: %s\", err)\n		return err\n	}\n\n	return nil",
+  "	if err := msg.ToNet(s); err != nil {\n		log.Debugf(\"error: %s\", err)\n		return err\n	}\n\n	return msg.ToNet(s)",
+  "C15.2", "message delivered twice")
+m("C15", "malformed-not-reported", NET,
+  "				s.Reset() // nolint: errcheck,gosec\n				go dtnet.receiver.ReceiveError(err)\n				log.Debugf(\"net handleNewStream from %s error: %s\", p, err)",
+  "				s.Reset() // nolint: errcheck,gosec\n				log.Debugf(\"net handleNewStream from %s error: %s\", p, err)",
+  "C15.3", "malformed stream not reported")
+
 by = collections.defaultdict(list)
 for x in M:
     p = x.pop("prop")
